@@ -89,6 +89,67 @@ def h_reuse(f, N):
     return body
 
 
+UNIT_OPS = {
+    # name: (timed?, quantifier over the window, window(t, a, b, N) -> list of indices)
+    'always': (False, 'all', lambda t, a, b, N: range(t, N)),
+    'eventually': (False, 'any', lambda t, a, b, N: range(t, N)),
+    'once': (False, 'any', lambda t, a, b, N: range(0, t + 1)),
+    'historically': (False, 'all', lambda t, a, b, N: range(0, t + 1)),
+    'timed_always': (True, 'all', lambda t, a, b, N: range(t + a, min(t + b, N - 1) + 1)),
+    'timed_eventually': (True, 'any', lambda t, a, b, N: range(t + a, min(t + b, N - 1) + 1)),
+    'timed_once': (True, 'any', lambda t, a, b, N: range(max(0, t - b), t - a + 1)),
+    'timed_historically': (True, 'all', lambda t, a, b, N: range(max(0, t - b), t - a + 1)),
+}
+
+
+def h_unit_explain(op, flag, ivs, N, a=0, b=0):
+    """inductive step for ONE explain_* function: operand signal arbitrary (symbolic), blamed intervals `ivs` arbitrary
+    (enumerated); premise: the operator has verdict `flag` at every blamed instant.  Claim: every operand signal that agrees
+    in sign with the original on the returned intervals gives the operator the same verdict at every blamed instant."""
+    timed, quant, win = UNIT_OPS[op]
+
+    def body(env):
+        A = env.A
+        import rtamt.explanation.ltl.discrete_time.explanations as L
+        import rtamt.explanation.stl.discrete_time.explanations as S
+        fn = getattr(S if timed else L, 'explain_%s_%s' % ('sat' if flag else 'unsat', op))
+        c = [env.real('c%d' % i) for i in range(N)]
+        c2 = [env.real('d%d' % i) for i in range(N)]
+        tr = [A.le(0, x) for x in c]
+        tr2 = [A.le(0, x) for x in c2]
+
+        def verdict(truths, t):
+            idx = list(win(t, a, b, N))
+            if quant == 'all':
+                return A.And(*[truths[i] for i in idx])
+            return A.Or(*[truths[i] for i in idx])
+        blamed = sorted({t for lo, hi in ivs for t in range(lo, hi + 1)})
+        for t in blamed:                                   # premise: the operator has the verdict that is being explained
+            v = verdict(tr, t)
+            env.assume(v if flag else A.Not(v))
+        J = fn(c, [list(i) for i in ivs], a, b) if timed else fn(c, [list(i) for i in ivs])
+        rep = sorted({j for lo, hi in J for j in range(max(0, int(lo)), min(N - 1, int(hi)) + 1)})
+        env.observe('reported', [len(rep)])
+        agree = A.And(*[A.Or(A.And(tr[j], tr2[j]), A.And(A.Not(tr[j]), A.Not(tr2[j]))) for j in rep])
+        res = []
+        for t in blamed:
+            v2 = verdict(tr2, t)
+            res.append(('unit-sufficient@%d' % t, A.Or(A.Not(agree), v2 if flag else A.Not(v2))))
+        return res
+    return body
+
+
+def interval_sets(N):
+    """all sets of one or two disjoint, non-adjacent intervals inside [0, N-1]"""
+    one = [(lo, hi) for lo in range(N) for hi in range(lo, N)]
+    out = [[i] for i in one]
+    for i in one:
+        for j in one:
+            if j[0] > i[1] + 1:
+                out.append([i, j])
+    return out
+
+
 EXP_UN = ['not', 'always', 'eventually', 'once', 'historically', 'prev', 's_prev', 'next', 's_next', 'rise', 'fall']
 EXP_UNT = ['always_t', 'eventually_t', 'once_t', 'historically_t']
 EXP_BIN = ['and', 'or', 'implies', 'iff', 'xor']
@@ -126,6 +187,18 @@ def obligations(tier, rng):
     for f in [('geq', X, C), ('always_t', ('implies', ('geq', X, C), ('eventually_t', ('leq', Y, C), 0, 1)), 0, 1), ('or', ('geq', X, C), ('once', ('leq', Y, C))),
               ('eventually', ('geq', X, C)), ('not', ('historically', ('geq', X, C)))]:
         out.append(ob('C20', 'reuse', 'reuse/%s/N=3' % text(f), f=f, N=3, max_paths=40000, wall=600))
+    # inductive step per explain_* function: arbitrary operand signal, every set of <= 2 blamed intervals
+    Nu = 4 if quick else 5
+    for op, (timed, _, _) in UNIT_OPS.items():
+        for flag in (True, False):
+            for ivs in interval_sets(Nu):
+                for (a, b) in ([(0, 1), (1, 2), (0, 2)] if timed else [(0, 0)]):
+                    quant, win = UNIT_OPS[op][1], UNIT_OPS[op][2]
+                    empty = any(len(list(win(t, a, b, Nu))) == 0 for lo, hi in ivs for t in range(lo, hi + 1))
+                    if empty and ((quant == 'all' and not flag) or (quant == 'any' and flag)):
+                        continue                  # an empty window cannot have that verdict: nothing to explain
+                    out.append(ob('C20', 'unit_explain', 'unit/%s_%s%s/I=%s' % ('sat' if flag else 'unsat', op, '[%d,%d]' % (a, b) if timed else '', ivs),
+                                  op=op, flag=flag, ivs=[list(i) for i in ivs], N=Nu, a=a, b=b, validate=0))
     # bounds that are not plain sample counts (explicit units, sampling period other than the default unit)
     GU = ('geq', X, ('const', 0.0))
     for f, txt, period in [(('always_t', GU, 0, 4), 'always[0:2s]((x) >= (0.0))', [500, 'ms', 0.1]), (('eventually_t', GU, 2, 4), 'eventually[1:2]((x) >= (0.0))', [500, 'ms', 0.1]),
